@@ -315,6 +315,8 @@ def run(tier):
                 "synthetic graphs (shared values, in-place call between reads, nested function with closure); non-trivial = programs with an in-place statement, an assertion, a constant or a re-used variable name")
     rep.assumptions = ["numpy code generator output is straight-line (C17); nested function definitions are checked by execution only, not by the symbolic machine",
                        "an expression statement is an in-place call that updates its first argument (np.put / ufunc.at)"]
+    import suite
+    sh = suite.start()       # the repository's own tests run under the compile recorder while the rest of the check works
     specs = corpus.quick_specs() if tier == "quick" else corpus.thorough_specs()
     cases = corpus.generate(rep, specs)
     rep.exhaustive = True
@@ -350,6 +352,10 @@ def run(tier):
                               {"where": f["where"], "code": f["code"], "irgraph": f["graph"]}, "%s: %s\n%s" % (f["where"], f["detail"], f["code"][:700]))
                 continue
             rep.violation({"kind": f["kind"], "where": f["where"][:60]}, {"where": f["where"], "code": f["code"]}, "%s: %s\n%s" % (f["where"], f["detail"], f["code"][:700]))
+    # every compilation the repository's own test suite performs is validated by the symbolic machine as well
+    srecs = suite.finish(sh, rep, "codegen")
+    rep.extra["compilations_recorded_from_repository_tests"] = len(srecs)
+    recs.extend(srecs)
     ok, bad = validate(rep, recs)
     rep.validated += ok
     for r in recs:
